@@ -10,17 +10,23 @@ Correspondence (every run, against C.REPO's current tree):
      escape alphabet and random constants; the emitted literal is then evaluated by node (V8);
  (3) generated table programs compiled by the real compiler and run in node, against `go run` of the
      same source (range, indexing, slicing, conversions, string(rune), string(int64), comparison, map
-     keys, switch, copy/append, literals in several spellings).
+     keys, switch, copy/append, literals in several spellings);
+ (4) phase 4: a table program with one function per string operator / conversion is compiled by the real
+     compiler (harness/py/c14_gen.py); its emitted `return <expr>;` templates are parsed into coq/Gen/
+     C14_Templates.v (Proofs/C14_P4_Tie.v proves them equal to the templates of the theorems) and the very
+     same compiled functions are called in node (harness/js/c14_ops_driver.js) on generated operands; results
+     vs a from-scratch Python oracle (concrete) and vs the Coq evaluator Model/C14_Ops.jeval (correspondence).
 For every input first the property's own predicate is evaluated (native Go's answer for the same input /
 the constant itself for literals) -> concrete violation; then the Coq model is evaluated on exactly the
 same inputs and compared with the implementation -> correspondence.
 """
 import itertools, json, os, re
 import common as C
+import c14_gen
 
 ID = "C14"
 PROPS_FILE = "Props/C14.v"
-MODEL_TARGETS = ["Corr/C14_Eval.v"]
+MODEL_TARGETS = ["Corr/C14_Eval.v", "Corr/C14_OpsEval.v"]
 ALLOWED_AXIOMS = []
 RULE = ("strings: every byte string of length <= 3 (thorough <= 4) over the boundary alphabet "
         "{00,7F,80,8F,90,9F,A0,BF,C0,C1,C2,DF,E0,E1,EC,ED,EE,EF,F0,F1,F3,F4,F5,F7,F8,FF}, decoded at EVERY position, "
@@ -29,6 +35,11 @@ RULE = ("strings: every byte string of length <= 3 (thorough <= 4) over the boun
         "low-only form on one string per length 0..6; literals: all 256 single bytes, all pairs over a 26-byte escape "
         "alphabet, random constants; programs: tables of strings (always incl. %-verbs, $-patterns, comment/template markers) spelled as \\x / quoted / raw / octal / concatenated "
         "literals, used in initialisers AND as operands of if / else-if / switch-case / tagless-switch / for conditions against run-time copies. "
+        "operators (phase 4): all pairs of strings of length <= 2 over {00,61,80,FF} plus random longer pairs sharing prefixes, under + == != < <= > >= "
+        "(also on a named string type); len/[]byte/[]rune of each; every index in [-2,len+1] and slice pair; string(b) on windows with every offset/"
+        "capacity and lengths 10000/10001/20001 with zero and non-zero offset; string([]rune) windows, string(rune), string(int64) incl. high words; "
+        "string switch on all pool strings and clause constants (+NUL); map[string]int scripts of set/get/delete over keys containing '$', NUL, "
+        "invalid UTF-8; each call runs the function the real compiler emitted, is judged by a from-scratch Python oracle, then by the Coq model. "
         "non-trivial = string contains a byte >= 0x80 (or an escape for literals); distinct by input")
 TRUSTED = ["hand-written model of prelude.js:188-360 and utils.go encodeString (coq/Model/C14_*.v), tied by this correspondence",
            "native Go 1.23 (utf8, conversions, slicing) as the reference of the specification side in the check; the Coq "
@@ -36,11 +47,18 @@ TRUSTED = ["hand-written model of prelude.js:188-360 and utils.go encodeString (
            "V8 as the reader of string literals (the model js_unescape covers exactly the escapes encodeString emits)",
            "harness/js/c14_driver.js, harness/go/repo_overlay/compiler/verifharness/c14, export_c14_verif.go",
            "JS int32 bit operations modelled by N operations (operands are code units < 2^16 or checked runes <= 0x10FFFF)",
-           "string comparison, concatenation, len, indexing, map keys and switch are not modelled in Coq (list facts); "
-           "they are checked only through compiled programs against native Go"]
+           "ECMA-262 semantics of the JS operators used by the emitted string templates (IsLessThan on Strings, ===, +, .length, charCodeAt, "
+           "Map get/set/delete with SameValueZero on strings) as modelled in coq/Model/C14_Ops.v (js_str_lt, units_eqb, map_get/map_set)",
+           "harness/py/c14_gen.py (table program, JS expression parser -> Model/C14_Ops.jx, regexes for $String.keyFor, the $bytesToString chunk "
+           "and the emitted switch chain) and harness/js/c14_ops_driver.js (calls the compiled functions published through js.InternalObject)",
+           "copy(b, s) / append(b, s...) / x += y / map delete / len(map) are exercised in the operator correspondence but have no theorem through "
+           "the emitted template"]
 ASSUMPTIONS = ["Go strings are JS strings whose code units are all < 256 (established by encodeString, $bytesToString, "
                "$encodeRune: proved for those three; other producers such as js.Object.String() are out of scope)",
-               "string constants reach the output only through encodeString (utils.go)"]
+               "string constants reach the output only through encodeString (utils.go)",
+               "operands of the operator templates are of the shapes the Go type checker guarantees (strings, ints, []byte/[]rune slices, int64 pairs, "
+               "map[string]int); jeval returns Stuck on anything else",
+               "the byte slice theorems assume the backing array holds bytes (< 256: guaranteed by Uint8Array) and offset + length <= len(array) (slice invariant)"]
 
 ALPH26 = [0x00, 0x7F, 0x80, 0x8F, 0x90, 0x9F, 0xA0, 0xBF, 0xC0, 0xC1, 0xC2, 0xDF, 0xE0, 0xE1, 0xEC, 0xED, 0xEE, 0xEF,
           0xF0, 0xF1, 0xF3, 0xF4, 0xF5, 0xF7, 0xF8, 0xFF]
@@ -48,9 +66,17 @@ BOUNDARY_RUNES = [0, 0x7F, 0x80, 0x7FF, 0x800, 0xD7FF, 0xD800, 0xDFFF, 0xE000, 0
 ESC_ALPH = [0, 7, 8, 9, 10, 11, 12, 13, 0x1F, 0x20, 0x22, 0x24, 0x25, 0x27, 0x2F, 0x3C, 0x5C, 0x60, 0x62, 0x78, 0x7E, 0x7F, 0x80, 0xC8, 0xE2, 0xFF]
 
 
+GEN = {}
+
+
 def prepare(ctx):
     C.ensure_gopherjs()
     C.ensure_go_harness("c14")
+    # phase 4: compile the string-operator table program with the real compiler and regenerate coq/Gen/C14_Templates.v
+    GEN.clear()
+    GEN.update(c14_gen.generate(ctx.work, C.REPO))
+    for n in GEN["notes"][:10]:
+        ctx.log("gen note: " + n)
 
 
 # ---------------------------------------------------------------- helpers
@@ -131,9 +157,11 @@ def threw(ctx, im, what, replay):
 class Model:
     """collects Coq cases, evaluates them in shards, reports mismatches"""
 
-    def __init__(self, ctx):
+    def __init__(self, ctx, tag="cases", imports="Model.C14_Utf8 Model.C14_Literal Corr.C14_Eval", typ="case", fn="mismatches", cov="", floor=20000):
         self.ctx = ctx
+        self.floor = floor
         self.cases = []      # (coq text, description dict)
+        self.tag, self.imports, self.typ, self.fn, self.covp = tag, imports, typ, fn, cov
 
     def add(self, text, desc):
         self.cases.append((text, desc))
@@ -143,7 +171,7 @@ class Model:
         shards, cur, size = [], [], 0
         total = sum(len(t) for t, _ in self.cases)
         # one shard per core when possible: reading a case costs ~1 ms, starting coqc + loading ZArith 1-2 s
-        lim = max(20000, min(400000, total // C.NCPU + 1))
+        lim = max(self.floor, min(400000, total // C.NCPU + 1))
         for i, (t, _) in enumerate(self.cases):
             if cur and (size + len(t) > lim or len(cur) >= 6000):
                 shards.append(cur); cur, size = [], 0
@@ -152,12 +180,12 @@ class Model:
             shards.append(cur)
 
         def run_shard(k):
-            p = os.path.join(ctx.work, "cases_%d.v" % k)
+            p = os.path.join(ctx.work, "%s_%d.v" % (self.tag, k))
             with open(p, "w") as f:
-                f.write("From Coq Require Import List NArith ZArith.\nFrom Verif Require Import Model.C14_Utf8 Model.C14_Literal Corr.C14_Eval.\n"
-                        "Import ListNotations.\nLocal Open Scope N_scope.\n")
-                f.write("Definition cases : list case := [\n" + ";\n".join(self.cases[i][0] for i in shards[k]) + "].\n")
-                f.write("Definition M := Eval vm_compute in mismatches cases.\nPrint M.\n")
+                f.write("From Coq Require Import List NArith ZArith.\nFrom Verif Require Import %s.\n"
+                        "Import ListNotations.\nLocal Open Scope N_scope.\n" % self.imports)
+                f.write("Definition cases : list %s := [\n" % self.typ + ";\n".join(self.cases[i][0] for i in shards[k]) + "].\n")
+                f.write("Definition M := Eval vm_compute in %s cases.\nPrint M.\n" % self.fn)
             rc, out = C.coq_run(p)
             m = re.search(r"M\s*=\s*(\[[^\]]*\])", out.replace("\n", " "))
             if rc != 0 or not m:
@@ -168,9 +196,9 @@ class Model:
         for k, idxs, err in C.parallel_map(run_shard, range(len(shards))):
             if idxs is None:
                 if "[timeout after" in err:
-                    ctx.notes.append("model shard %d skipped: coqc timed out (infrastructure)" % k)
+                    ctx.notes.append("model shard %s %d skipped: coqc timed out (infrastructure)" % (self.tag, k))
                 else:
-                    ctx.violation("model-eval-failed", "Coq evaluation of the model failed", dict(shard=k, log=err), concrete=False)
+                    ctx.violation("model-eval-failed" + ("-" + self.covp.strip("_") if self.covp else ""), "Coq evaluation of the model failed", dict(shard=k, log=err), concrete=False)
                 continue
             for i in idxs:
                 mism += 1
@@ -178,8 +206,8 @@ class Model:
                 ctx.violation("model-mismatch-" + desc.get("kind", "?"),
                               "model and implementation disagree (correspondence Corr/C14_Eval.case_ok broken) on " + desc.get("kind", "?"),
                               dict(desc, coq_case=text[:2000]), concrete=False)
-        ctx.cov["model_cases_evaluated"] = len(self.cases)
-        ctx.cov["model_mismatches"] = mism
+        ctx.cov[self.covp + "model_cases_evaluated"] = len(self.cases)
+        ctx.cov[self.covp + "model_mismatches"] = mism
 
 
 # ---------------------------------------------------------------- (1) prelude
@@ -818,6 +846,246 @@ def programs(ctx, model):
     ctx.cov["program_output_lines_compared"] = nlines
 
 
+# ---------------------------------------------------------------- (4) string operators as emitted (phase 4)
+
+OPS_ALPH = [0x00, 0x61, 0x80, 0xFF]
+KEY_POOL = [b"", b"$", b"a", b"$a", b"$$a", b"a\x00", b"a\x00b", b"\xff", b"\xc3\xa9", b"\xc3", b"a$b", b"\x00", b"b", b"ab"]
+
+
+def utf8_of_int(x):
+    """Go string(rune(x)) from scratch"""
+    if x < 0 or x > 0x10FFFF or 0xD800 <= x <= 0xDFFF:
+        x = 0xFFFD
+    if x < 0x80: return bytes([x])
+    if x < 0x800: return bytes([0xC0 | x >> 6, 0x80 | x & 0x3F])
+    if x < 0x10000: return bytes([0xE0 | x >> 12, 0x80 | (x >> 6) & 0x3F, 0x80 | x & 0x3F])
+    return bytes([0xF0 | x >> 18, 0x80 | (x >> 12) & 0x3F, 0x80 | (x >> 6) & 0x3F, 0x80 | x & 0x3F])
+
+
+def coq_arg(a):
+    if "s" in a: return "VStr %s" % nl(bytes.fromhex(a["s"]))
+    if "n" in a: return "VNum %s" % zs(a["n"])
+    if "gen" in a:
+        g = a["gen"]
+        return "vbytes (gen_arr %d %d %d) %d %d %d" % (g["n"], g["a"], g["b"], g["off"], g["len"], g["cap"])
+    if "bytes" in a:
+        g = a["bytes"]
+        return "vbytes %s %d %d %d" % (nl(g["arr"]), g["off"], g["len"], g["cap"])
+    if "runes" in a:
+        g = a["runes"]
+        return "vrunes %s %d %d %d" % (zl(g["arr"]), g["off"], g["len"], g["cap"])
+    if "i64" in a: return "VI64 %s %s" % (zs(a["i64"][0]), zs(a["i64"][1]))
+    raise ValueError(a)
+
+
+def coq_res(o):
+    if "str" in o: return "Ok (VStr %s)" % nl(o["str"])
+    if "num" in o and float(o["num"]).is_integer(): return "Ok (VNum %s)" % zs(int(o["num"]))
+    if "nan" in o: return "Ok VNaN"
+    if "bool" in o: return "Ok (VBool %s)" % ("true" if o["bool"] else "false")
+    if "undef" in o: return "Ok VUndef"
+    if "bytes" in o:
+        g = o["bytes"]
+        return "Ok (vbytes %s %d %d %d)" % (nl(g["arr"]), g["off"], g["len"], g["cap"])
+    if "runes" in o:
+        g = o["runes"]
+        return "Ok (vrunes %s %d %d %d)" % (zl(g["arr"]), g["off"], g["len"], g["cap"])
+    if "panic" in o and o["panic"].startswith("runtime error: ") and all(ord(ch) < 128 for ch in o["panic"]):
+        return "Panic %s" % nl(o["panic"][len("runtime error: "):].encode())
+    return "Stuck"
+
+
+def py_oracle(t, args):
+    """what Go prescribes, computed from scratch on Python bytes / ints; ('panic', kind) for a run-time panic; None = no oracle"""
+    t = t[2:] if t.startswith("My") else t
+    b = lambda i: bytes.fromhex(args[i]["s"])
+    if t == "Add": return dict(str=list(b(0) + b(1)))
+    if t == "Eql": return dict(bool=b(0) == b(1))
+    if t == "Neq": return dict(bool=b(0) != b(1))
+    if t == "Lss": return dict(bool=b(0) < b(1))
+    if t == "Leq": return dict(bool=b(0) <= b(1))
+    if t == "Gtr": return dict(bool=b(0) > b(1))
+    if t == "Geq": return dict(bool=b(0) >= b(1))
+    if t == "Len": return dict(num=len(b(0)))
+    if t == "Idx":
+        i = args[1]["n"]
+        return dict(num=b(0)[i]) if 0 <= i < len(b(0)) else dict(panic="runtime error: index out of range")
+    if t in ("Sl2", "SlLo", "SlHi"):
+        s = b(0)
+        lo, hi = (args[1]["n"], args[2]["n"]) if t == "Sl2" else (args[1]["n"], len(s)) if t == "SlLo" else (0, args[1]["n"])
+        return dict(str=list(s[lo:hi])) if 0 <= lo <= hi <= len(s) else dict(panic="runtime error: slice bounds out of range")
+    if t == "ToBytes": return dict(bytes=dict(arr=list(b(0)), off=0, len=len(b(0)), cap=len(b(0))))
+    if t == "FromBytes":
+        if "gen" in args[0]:
+            g = args[0]["gen"]
+            arr = [(g["a"] * i + g["b"]) % 256 for i in range(g["n"])]
+        else:
+            g = args[0]["bytes"]; arr = g["arr"]
+        return dict(str=arr[g["off"]:g["off"] + g["len"]])
+    if t == "FromRunes":
+        g = args[0]["runes"]
+        return dict(str=list(b"".join(utf8_of_int(x) for x in g["arr"][g["off"]:g["off"] + g["len"]])))
+    if t == "FromRune": return dict(str=list(utf8_of_int(args[0]["n"])))
+    if t == "FromI64":
+        hi, lo = args[0]["i64"]
+        return dict(str=list(utf8_of_int(hi * 2 ** 32 + lo)))
+    return None
+
+
+def operators(ctx, om):
+    r = ctx.rng("ops")
+    for n in GEN.get("notes", []):
+        ctx.violation("template-not-recognised", "the emitted JavaScript of a string operator could not be read back: " + n[:300], dict(kind="template", note=n), concrete=False)
+    pool = [b""] + [bytes(t) for n in (1, 2) for t in itertools.product(OPS_ALPH, repeat=n)]
+    longer = []
+    for _ in range(40 if ctx.quick else 400):
+        base = gen_random_string(r)[:r.randint(1, 12)]
+        longer.append(base)
+        k = r.randint(0, len(base))
+        longer.append(base[:k] + bytes([r.choice(OPS_ALPH + [0x24, 0x7F, 0xC3])] * r.randint(0, 2)) + (base[k + 1:] if r.random() < 0.5 else b""))
+    calls = []
+    S = lambda x: dict(s=x.hex())
+    N = lambda x: dict(n=x)
+    pairs_ = [(a, b) for a in pool for b in pool] + [(r.choice(longer), r.choice(longer)) for _ in range(150 if ctx.quick else 3000)] + [(x, x) for x in longer[:20]]
+    for a, b in pairs_:
+        for t in ("Add", "Eql", "Neq", "Lss", "Leq", "Gtr", "Geq"):
+            calls.append(dict(t=t, args=[S(a), S(b)]))
+    for a, b in r.sample(pairs_, 60):
+        for t in ("MyAdd", "MyLss", "MyEql"):
+            calls.append(dict(t=t, args=[S(a), S(b)]))
+    strs = pool + longer[:30]
+    for s in strs:
+        calls.append(dict(t="Len", args=[S(s)]))
+        calls.append(dict(t="ToBytes", args=[S(s)]))
+        calls.append(dict(t="ToRunes", args=[S(s)]))
+    for s in strs[::4]:
+        calls.append(dict(t="MyLen", args=[S(s)]))
+        calls.append(dict(t="MyToBytes", args=[S(s)]))
+    for s in pool[:9] + longer[:8]:
+        for i in range(-2, len(s) + 2):
+            calls.append(dict(t="Idx", args=[S(s), N(i)]))
+            calls.append(dict(t="SlLo", args=[S(s), N(i)]))
+            calls.append(dict(t="SlHi", args=[S(s), N(i)]))
+            for j in range(-1, len(s) + 2):
+                if len(s) <= 4 or r.random() < 0.3:
+                    calls.append(dict(t="Sl2", args=[S(s), N(i), N(j)]))
+    # string(b): small windows with every offset, and lengths around the chunk size with zero / non-zero offset and spare capacity
+    for _ in range(60 if ctx.quick else 600):
+        n = r.randint(0, 12); off = r.randint(0, n); ln = r.randint(0, n - off)
+        calls.append(dict(t=r.choice(["FromBytes", "FromBytes", "MyFromBytes"]), args=[dict(gen=dict(n=n, a=r.choice([1, 7, 13, 255]), b=r.randint(0, 255), off=off, len=ln, cap=r.randint(ln, n - off)))]))
+    for ln in ([10000, 10001, 20001] if ctx.quick else [5000, 9999, 10000, 10001, 19999, 20000, 20001, 30001]):
+        for off in ((r.randint(1, 9),) if ctx.quick and ln != 10001 else (0, r.randint(1, 9))):
+            calls.append(dict(t="FromBytes", args=[dict(gen=dict(n=off + ln + 3, a=r.choice([7, 13]), b=r.randint(0, 255), off=off, len=ln, cap=ln + r.randint(0, 3)))]))
+    brunes = sorted(set(x + d for x in BOUNDARY_RUNES for d in (-1, 0, 1)))
+    for _ in range(50 if ctx.quick else 500):
+        n = r.randint(0, 7)
+        arr = [r.choice(brunes + [r.randint(0, 0x10FFFF), r.randint(-2 ** 31, 2 ** 31 - 1)]) for _ in range(n)]
+        off = r.randint(0, n); ln = r.randint(0, n - off)
+        calls.append(dict(t="FromRunes", args=[dict(runes=dict(arr=arr, off=off, len=ln, cap=n - off))]))
+    for x in brunes + [r.randint(-2 ** 31, 2 ** 31 - 1) for _ in range(20)]:
+        calls.append(dict(t="FromRune", args=[N(x)]))
+    for x in I64_TABLE + [r.randint(0, 0x10FFFF) for _ in range(10)] + [r.randint(-2 ** 63, 2 ** 63 - 1) for _ in range(10)]:
+        calls.append(dict(t="FromI64", args=[dict(i64=[x >> 32, x % 2 ** 32])]))
+    addassign = [[a.hex(), b.hex()] for a, b in r.sample(pairs_, 40)]
+    switches = list(dict.fromkeys(pool + [c for cl in c14_gen.SWITCH_CLAUSES for c in cl] + [c + b"\x00" for cl in c14_gen.SWITCH_CLAUSES for c in cl] + longer[:10]))
+    maps = []
+    for _ in range(40 if ctx.quick else 400):
+        script = []
+        for _ in range(r.randint(3, 14)):
+            k = r.choice(KEY_POOL).hex()
+            o = r.choice(["set", "set", "set", "get", "get", "del"])
+            script.append(dict(op=o, k=k, v=r.randint(-5, 1000)) if o == "set" else dict(op=o, k=k))
+        script += [dict(op="get", k=k.hex()) for k in r.sample(KEY_POOL, 4)]
+        maps.append(script)
+
+    p = os.path.join(ctx.work, "req_ops.json")
+    with open(p, "w") as f:
+        json.dump(dict(calls=calls, addassign=addassign, switches=[x.hex() for x in switches], maps=maps), f)
+    rc, out, err = C.sh2(["node", "--stack-size=4000", os.path.join(C.JS, "c14_ops_driver.js"), GEN["outjs"], p], timeout=1200)
+    if rc == 124:
+        raise Skip("node operator driver timed out")
+    if rc != 0:
+        raise C.BuildError("c14 operator driver failed (the compiled table program does not load): " + err[-800:])
+    rep = json.loads(out)
+
+    seen = {}
+
+    def viol(sig, what, replay):
+        seen[sig] = seen.get(sig, 0) + 1
+        if seen[sig] <= 3:
+            ctx.violation(sig, what, replay)
+
+    # the ToRunes oracle is native Go
+    tr = [c for c in calls if c["t"] == "ToRunes"]
+    goref = {h: x["runes"] for h, x in zip([c["args"][0]["s"] for c in tr], go_ref(dict(strings=[c["args"][0]["s"] for c in tr]))["strings"])}
+    per_t = {}
+    for idx, (c, o) in enumerate(zip(calls, rep["calls"])):
+        t = c["t"]
+        per_t[t] = per_t.get(t, 0) + 1
+        ctx.count(["op", c], nontrivial=any("s" in a and any(x >= 0x80 for x in bytes.fromhex(a["s"])) for a in c["args"]) or t.startswith("From"))
+        want = py_oracle(t, c["args"])
+        if t == "ToRunes":
+            rs = goref[c["args"][0]["s"]]
+            want = dict(runes=dict(arr=rs, off=0, len=len(rs), cap=len(rs)))
+        if want is not None:
+            got = o
+            if "runes" in o and t == "ToRunes":      # the backing Int32Array may be longer than the slice: compare the window
+                g = o["runes"]
+                got = dict(runes=dict(arr=g["arr"][g["off"]:g["off"] + g["len"]], off=0, len=g["len"], cap=g["len"]))
+                want = dict(runes=dict(arr=want["runes"]["arr"], off=0, len=want["runes"]["len"], cap=want["runes"]["len"]))
+            if got != want:
+                cls = ""
+                if t in ("FromBytes", "MyFromBytes"):
+                    g = c["args"][0].get("gen") or c["args"][0]["bytes"]
+                    cls = "-chunked" if g["len"] > 10000 else "-offset" if g["off"] else ""
+                elif "panic" in want:
+                    cls = "-missing-panic"
+                elif "panic" in o:
+                    cls = "-spurious-panic"
+                short = lambda x: json.dumps(x)[:160]
+                viol("op-%s%s" % (t.lower(), cls), "emitted code of %s on %s gives %s, Go prescribes %s" % (t, short(c["args"]), short(o), short(want)),
+                     dict(kind="op", call=c, impl=o if len(json.dumps(o)) < 2000 else None, go=want if len(json.dumps(want)) < 2000 else None))
+        if idx < 7 * len(pairs_):
+            if idx % 7 == 6:     # one model case per pair: the seven binary operators in the order of Corr/C14_OpsEval.OPair
+                om.add("OPair %s %s [%s]" % (nl(bytes.fromhex(c["args"][0]["s"])), nl(bytes.fromhex(c["args"][1]["s"])), ";".join(coq_res(x) for x in rep["calls"][idx - 6:idx + 1])),
+                       dict(kind="op-binary", a=c["args"][0]["s"], b=c["args"][1]["s"], impl=rep["calls"][idx - 6:idx + 1]))
+            continue
+        om.add("OTmpl t_%s [%s] (%s)" % (t, ";".join(coq_arg(a) for a in c["args"]), coq_res(o)), dict(kind="op-" + t.lower(), call=c if len(json.dumps(c)) < 600 else c["t"]))
+    for (a, b), o in zip(addassign, rep["addassign"]):
+        ctx.count(["addassign", a, b], nontrivial=True)
+        if o != dict(str=list(bytes.fromhex(a) + bytes.fromhex(b))):
+            viol("op-add-assign", "x += y on %s, %s gives %r" % (a, b, o), dict(kind="op", call=dict(t="AddAssign", args=[dict(s=a), dict(s=b)]), impl=o))
+    for tag, o in zip(switches, rep["switches"]):
+        ctx.count(["switch", tag.hex()], nontrivial=True)
+        want = next((i for i, cl in enumerate(c14_gen.SWITCH_CLAUSES) if tag in cl), -1)
+        if o != dict(num=want):
+            viol("op-switch", "switch on %s enters clause %r, Go enters %d" % (tag.hex(), o, want), dict(kind="op-switch", tag=tag.hex(), impl=o, go=want))
+        om.add("OSwitch %s %s" % (nl(tag), zs(o["num"]) if "num" in o else "(-99)%Z"), dict(kind="op-switch", tag=tag.hex(), impl=o))
+    for script, o in zip(maps, rep["maps"]):
+        ctx.count(["map", script], nontrivial=True)
+        if "panic" in o:
+            viol("op-map-threw", "map[string]int operations raised %r" % o["panic"], dict(kind="op-map", script=script, impl=o))
+            continue
+        d, gets = {}, []
+        for op in script:
+            k = bytes.fromhex(op["k"])
+            if op["op"] == "set": d[k] = op["v"]
+            elif op["op"] == "del": d.pop(k, None)
+            else: gets.append([d.get(k, 0), k in d, d.get(k, 0)])
+        if o["gets"] != gets or o["len"] != len(d) or [bytes(k) for k in o["gokeys"]] != list(d):
+            viol("op-map-string-key", "map[string]int script gives gets=%r len=%d keys=%r, Go gives gets=%r len=%d keys=%r" %
+                 (o["gets"], o["len"], [bytes(k).hex() for k in o["gokeys"]], gets, len(d), [k.hex() for k in d]), dict(kind="op-map", script=script, impl=o))
+        ops_txt = ";".join(("MSet %s %s" % (nl(bytes.fromhex(op["k"])), zs(op["v"]))) if op["op"] == "set" else ("%s %s" % ("MDel" if op["op"] == "del" else "MGet", nl(bytes.fromhex(op["k"])))) for op in script)
+        gets_txt = ";".join("(%s,%s,%s)" % (zs(g[0]), "true" if g[1] else "false", zs(g[2])) for g in o["gets"])
+        om.add("OMap [%s] [%s] %d [%s] [%s]" % (ops_txt, gets_txt, o["len"], ";".join(nl(k) for k in o["keys"]), ";".join(nl(k) for k in o["gokeys"])),
+               dict(kind="op-map", script=script, impl=o))
+    ctx.sample(dict(kind="op", call=calls[7], emitted=GEN.get("texts", {}).get(calls[7]["t"]), result=rep["calls"][7]))
+    ctx.cov["op_calls_by_template"] = per_t
+    ctx.cov["op_templates_translated"] = "%d/%d" % (GEN.get("translated", 0), GEN.get("templates", 0))
+    ctx.cov["op_switch_tags"] = len(switches)
+    ctx.cov["op_map_scripts"] = len(maps)
+
+
 def correspond(ctx):
     model = Model(ctx)
     for name, phase in (("prelude strings", prelude_strings), ("prelude misc", prelude_misc), ("literals", literals), ("programs", programs)):
@@ -826,7 +1094,14 @@ def correspond(ctx):
         except Skip as e:
             ctx.notes.append("phase '%s' skipped: %s (infrastructure)" % (name, e))
         ctx.log(name + " done")
+    om = Model(ctx, tag="opcases", imports="Model.C14_Utf8 Model.C14_Ops Gen.C14_Templates Corr.C14_Eval Corr.C14_OpsEval", typ="ocase", fn="omismatches", cov="ops_", floor=200000)
+    try:
+        operators(ctx, om)
+    except Skip as e:
+        ctx.notes.append("phase 'operators' skipped: %s (infrastructure)" % e)
+    ctx.log("operators done")
     model.run()
+    om.run()
     ctx.log("model evaluation done")
 
 
@@ -847,6 +1122,16 @@ def replay(ctx, data):
         lit = go_ref(dict(lits=[rp["const"]]))["lits"]
         print("encodeString now:", bytes.fromhex(lit[0]).decode("latin1"))
         print("node value:", json.dumps(node_run(ctx, dict(lits=lit), "replay")["lits"]))
+    elif k == "op":
+        if not GEN:
+            GEN.update(c14_gen.generate(ctx.work, C.REPO))
+        p = os.path.join(ctx.work, "req_replay_ops.json")
+        with open(p, "w") as f:
+            json.dump(dict(calls=[rp["call"]]) if rp["call"]["t"] != "AddAssign" else dict(addassign=[[a["s"] for a in rp["call"]["args"]]]), f)
+        rc, out, err = C.sh2(["node", os.path.join(C.JS, "c14_ops_driver.js"), GEN["outjs"], p])
+        print("emitted template:", GEN.get("texts", {}).get(rp["call"]["t"]))
+        print("compiled code now:", out[:2000], err[-300:])
+        print("Go prescribes    :", json.dumps(py_oracle(rp["call"]["t"], rp["call"]["args"]))[:2000])
     elif k == "program":
         res = run_program(ctx, 0, rp["source"])
         if "error" in res:
@@ -859,12 +1144,20 @@ def replay(ctx, data):
 
 
 TECHNIQUE = ("Coq proof (decoder = table-driven specification for every code-unit string and position; encoder; round trips; range loop; "
-             "literal round trip) + differential correspondence with the real prelude in node, the real encodeString and compiled programs vs native Go")
+             "literal round trip; phase 4: the emitted templates of len, +, == != < <= > >=, s[i], s[i:j], []byte/[]rune/string conversions, "
+             "string(int64), m[k] and the string switch as a deep embedding regenerated from the real compiler's output on every run) "
+             "+ differential correspondence with the real prelude in node, the real encodeString, the compiled operator table program called "
+             "function by function, and compiled programs vs native Go")
 LEVEL_TEXT = ("Machine-checked, unbounded theorems over an executable model of $decodeRune/$encodeRune/$stringToRunes/$runesToString/"
               "$stringToBytes/$bytesToString/$copyString/$substring, the emitted range loop and encodeString + the JS reading of its escapes. "
+              "Phase 4: for EVERY byte string(s) len, concatenation, all six comparisons (ECMAScript IsLessThan on code units = Go's lexical byte "
+              "order, a strict total order), indexing, slicing laws with concatenation, string(b)/[]byte(s) for any offset/length/capacity and "
+              "chunk count, string(int64), $String.keyFor injectivity and the map get-after-set law, first-match semantics of the emitted string "
+              "switch, and well-formedness (all code units < 256) of every string-producing template. "
               "The model is tied to the code on every run: exhaustive byte strings up to length 3 (4 thorough) over the boundary alphabet at every "
-              "position, all slice index pairs, all single-byte literals, and compiled table programs against native Go.")
-LEVEL_NOTE = ("Proof is about the hand-written model; the tie to /repo is differential. len/concat/comparison/map key/switch are only "
-              "checked through compiled programs. Three recorded defects (s[lo:] with lo > len does not panic; s[i] out of range does not panic; "
-              "string(int64) ignores the high word) are in the faithful model with _refuted theorems and positive theorems outside exactly "
-              "those input classes. No axioms.")
+              "position, all slice index pairs, all single-byte literals, compiled table programs against native Go, and the operator templates "
+              "re-read from the compiler's output (Gen/C14_Templates.v, equality with the proved templates by conversion) and executed in node.")
+LEVEL_NOTE = ("Proof is about the hand-written model; the tie to /repo is differential plus, for the operator templates, syntactic (regenerated and "
+              "compared by conversion). Still only compared, not proved: $copyString/append(b, s...) through the compiler's templates, map delete and "
+              "iteration order, x += y, the statement-level shape of switch / range (recognised by regex, not parsed), JS engine semantics of "
+              "String comparison / Map (modelled from ECMA-262, trusted). No recorded defects; no axioms.")
